@@ -398,6 +398,8 @@ def driver_main(check: str, tier: str, replay: str | None = None, minimise: str 
         return ci, out, p
 
     running: list[tuple[int, str, subprocess.Popen[str], float]] = []
+    known_list = load_known()
+    seen_vs = 0
     hard_kill_at = deadline + float(os.environ.get("VERIF_GRACE_S", "150"))
     try:
         while True:
@@ -424,9 +426,29 @@ def driver_main(check: str, tier: str, replay: str | None = None, minimise: str 
                     continue
                 merge_agg(agg, json.load(open(out)))
                 os.unlink(out)
+                # listed findings can be very frequent: keep five examples of each, count the rest
+                kept = []
+                ex: dict[str, int] = {}
+                for v in agg["violations"]:
+                    k = known_match(v, known_list)
+                    if k is None:
+                        kept.append(v)
+                        continue
+                    c = agg.setdefault("known_pruned", {})
+                    if ex.get(k["id"], 0) < 5:
+                        ex[k["id"]] = ex.get(k["id"], 0) + 1
+                        kept.append(v)
+                    else:
+                        c[k["id"]] = c.get(k["id"], 0) + 1
+                agg["violations"] = kept
             running = still
-            if agg["violations"] and len(agg["violations"]) >= 20:
-                deadline = min(deadline, _now())  # enough to report; stop launching
+            # enough to report: stop launching once 20 violations *not listed as known findings* are in hand
+            # (listed ones are frequent for some properties and must not cut the exploration short)
+            if len(agg["violations"]) >= 20 and len(agg["violations"]) != seen_vs:
+                seen_vs = len(agg["violations"])
+                fresh = sum(1 for v in agg["violations"] if known_match(v, known_list) is None)
+                if fresh >= 20:
+                    deadline = min(deadline, _now())
     finally:
         for _, _, p, _ in running:
             try:
@@ -466,6 +488,9 @@ def finish(check: str, tier: str, base: int, agg: dict[str, Any], trouble: list[
             known_hits.setdefault(k["id"], {"k": k, "n": 0, "example": v})["n"] += 1
         else:
             new_vs.append(v)
+    for kid, n in (agg.get("known_pruned") or {}).items():
+        if kid in known_hits:
+            known_hits[kid]["n"] += n
     # group new violations by signature; confirm the first of each by replay in a fresh interpreter
     reported: list[tuple[dict[str, Any], str]] = []
     unconfirmed: list[str] = []
